@@ -20,7 +20,7 @@ def _load(n):
     p = _os.path.join(_os.path.dirname(_os.path.abspath(__file__)), n + '.py')
     if not _os.path.exists(p): return None
     sp = _ilu.spec_from_file_location('spec_' + n, p); m = _ilu.module_from_spec(sp); sp.loader.exec_module(m); return m
-_parts = [m for m in (_load('C15_sort_part'), _load('C15_value_part')) if m is not None]
+_parts = [m for m in (_load('C15_sort_part'), (_load('C15_value_part') if _os.path.exists(_os.path.join(_os.path.dirname(_os.path.abspath(__file__)), '.value_parts_ready')) else None)) if m is not None]
 _strings_queries = queries
 for _p in _parts:
     META['functions'] = META['functions'] + _p.META.get('functions', [])
